@@ -24,7 +24,9 @@
 EXTENDS Naturals, Sequences, FiniteSets
 
 CONSTANTS MaxN,     \* the user's generator yields n \in 0..MaxN items before it is exhausted
-          Fixed
+          Fixed,
+          CancelFirst   \* TRUE: the finally block first tries push_future.cancel() (the code); FALSE: it drains and joins
+                        \* unconditionally (witness: with every pool worker busy the relay never starts and close() never returns)
 
 VARIABLES n,          \* items the user's generator would yield (fixed per behaviour)
           raiseAt,    \* 0: never; k > 0: the generator raises instead of yielding item k (fixed per behaviour)
@@ -115,7 +117,7 @@ JoinOrRet == IF rpc = "done" THEN "ret" ELSE "join"
 \* what the finally block does up to its first blocking point
 Finally(gotNow) ==
   /\ stop' = TRUE
-  /\ IF fut = "pending"
+  /\ IF CancelFirst /\ fut = "pending"
        THEN /\ fut' = "cancelled" /\ rpc' = "done" /\ cpc' = "ret" /\ got' = gotNow    \* cancel() succeeded
             /\ UNCHANGED <<q>>
        ELSE /\ UNCHANGED <<fut, rpc>>
@@ -177,6 +179,12 @@ Next == Relay \/ Consumer \/ Server
 
 Spec == Init /\ [][Next]_vars
 FairSpec == Spec /\ WF_vars(Relay) /\ WF_vars(ConsGet \/ ConsDrain \/ ConsJoin)
+
+\* the class-wide pool has ten workers: with ten other streams alive this stream's relay job stays queued.  No fairness for
+\* RelayStart then - the call must return all the same once the server closes the iterable.
+FairSpecNoPool == Spec /\ WF_vars(RelayYield \/ RelayPut \/ RelayExhausted \/ RelayRaise \/ RelayPutNone \/ RelayClose)
+                       /\ WF_vars(ConsGet \/ ConsDrain \/ ConsJoin)
+CloseReturns == closing ~> (cpc = "ret")
 
 Bound == pings <= 2
 
